@@ -1,0 +1,55 @@
+//! Verification hooks, only compiled with `--cfg capy_verif`.
+//!
+//! `layout` and `mangle` are crate-private, so these are thin public wrappers
+//! around the real functions. They add no behaviour of their own.
+
+use hir::common::{ComptimeLoc, ConcreteLoc, Ty};
+use internment::Intern;
+use interner::Interner;
+
+use crate::layout::{self, GetLayoutInfo};
+use crate::mangle::{self, Mangle};
+
+pub fn calc_layouts(tys: impl Iterator<Item = Intern<Ty>>, pointer_bit_width: u32) {
+    layout::calc_layouts(tys, pointer_bit_width)
+}
+
+pub fn size(ty: Intern<Ty>) -> u32 {
+    ty.size()
+}
+
+pub fn align(ty: Intern<Ty>) -> u32 {
+    ty.align()
+}
+
+pub fn stride(ty: Intern<Ty>) -> u32 {
+    ty.stride()
+}
+
+pub fn struct_offsets(ty: Intern<Ty>) -> Option<Vec<u32>> {
+    ty.struct_layout().map(|l| l.offsets().to_vec())
+}
+
+pub fn discriminant_offset(ty: Intern<Ty>) -> Option<u32> {
+    ty.enum_layout().map(|l| l.discriminant_offset())
+}
+
+pub fn mangle_concrete(loc: ConcreteLoc, mod_dir: &std::path::Path, interner: &Interner) -> String {
+    loc.to_mangled_name(mod_dir, interner)
+}
+
+pub fn mangle_comptime(
+    loc: ComptimeLoc,
+    data_suffix: Option<&str>,
+    mod_dir: &std::path::Path,
+    interner: &Interner,
+) -> String {
+    match data_suffix {
+        Some(suffix) => (loc, suffix).to_mangled_name(mod_dir, interner),
+        None => loc.to_mangled_name(mod_dir, interner),
+    }
+}
+
+pub fn mangle_internal(name: &str) -> String {
+    mangle::mangle_internal(name)
+}
